@@ -84,6 +84,10 @@ def recipes():
           R_("prod:axis_where", "L", lambda np, a: np.prod(np.resize(a, (3, 3)), axis=0, where=np.array([[False, True, True], [False, False, True], [False, False, False]])),
              raises="DimensionalityError"),
           R_("prod:axis_where:dimensionless", "D", lambda np, a: np.prod(np.resize(a, (3, 3)), axis=0, where=np.array([[False, True, True], [False, False, True], [False, False, False]])), out="dimless"),
+          # exponents that are scalars in another guise: a 0-d array, a dimensionless Quantity (stored as a 0-d array by force_ndarray registries)
+          R_("power:zero_d_exponent", "L", lambda np, a: np.power(a, np.array(2.0)), out="sq"), R_("power:zero_d_operator", "L", lambda np, a: a ** np.array(3.0), out="pow3"),
+          R_("power:scalar_quantity_exponent", "L", lambda np, a: np.power(a, a.__class__(2, "")) if hasattr(a, "_units") else np.power(a, 2), out="sq"),
+          R_("power:scalar_quantity_operator", "L", lambda np, a: a ** a.__class__(3, "") if hasattr(a, "_units") else a ** 3, out="pow3"),
           R_("power:quantity_exponent", "DD", lambda np, a, e: np.power(1 + np.abs(a), e / (1 + np.abs(e))), out="dimless"),
           R_("append", "LL", lambda np, a, b: np.append(a, b)), R_("concatenate", "LL", lambda np, a, b: np.concatenate([a.ravel(), b.ravel()])), R_("stack", "LL", lambda np, a, b: np.stack([a.ravel(), b.ravel()])),
           R_("hstack", "LL", lambda np, a, b: np.hstack([a.ravel(), b.ravel()])), R_("vstack", "LL", lambda np, a, b: np.vstack([a.ravel(), b.ravel()])), R_("dstack", "LL", lambda np, a, b: np.dstack([a.ravel(), b.ravel()])),
@@ -250,7 +254,7 @@ def case_call(case, col=None):
     import pint
 
     R = env.R()
-    ureg = env.ureg("float", auto_reduce_dimensions=True) if case.get("config") == "auto_reduce" else env.ureg("float")
+    ureg = env.ureg("float", auto_reduce_dimensions=True) if case.get("config") == "auto_reduce" else (env.ureg("float", force_ndarray=True) if case.get("config") == "force_ndarray" else env.ureg("float"))
     rec = _recipe(case["recipe"])
     shape = tuple(case["shape"])
     rng_vals = case["values"]
@@ -353,11 +357,11 @@ def _call_strategy(idxs):
         i = draw(st.sampled_from(idxs))
         rec = RECIPES[i]
         uA, uB = [], []
-        config = draw(st.sampled_from([None, None, None, "auto_reduce"]))
+        config = draw(st.sampled_from([None, None, None, "auto_reduce", "force_ndarray"]))
         for role in rec["roles"]:
             for side in (uA, uB):
                 # (an explicit coin rather than a longer pool: Hypothesis tends to repeat earlier index choices, which starved the tail of the pool)
-                if config and role in COMPOUND and draw(st.booleans()):
+                if config == "auto_reduce" and role in COMPOUND and draw(st.booleans()):
                     side.append(draw(st.sampled_from(COMPOUND[role])))
                 else:
                     side.append(draw(st.sampled_from(POOLS[role])))
@@ -401,7 +405,41 @@ def case_error(case, col=None):
         raise Violation(f"numpy_wrong_exception:{rec['name']}:{exc_class(r)}", f"np.{rec['name']} with units {units} raised {type(r).__name__}: {r}")
 
 
+BARE_OPS = {"add": lambda np, a, b: np.add(a, b), "subtract": lambda np, a, b: np.subtract(a, b), "maximum": lambda np, a, b: np.maximum(a, b), "less": lambda np, a, b: np.less(a, b),
+            "where": lambda np, a, b: np.where(np.array([True, False, True]), a, b), "append": lambda np, a, b: np.append(a, b), "hypot": lambda np, a, b: np.hypot(a, b), "equal": lambda np, a, b: np.equal(a, b)}
+
+
+def case_bare_operand(case, col=None):
+    """a bare (unit-less) array next to a dimensioned quantity in a same-dimension slot is refused whatever its dtype: booleans are numbers (True == 1)
+    like their float and integer twins; next to a scaled dimensionless quantity they are converted like them"""
+    import numpy as np
+
+    import pint
+
+    ureg = env.ureg("float")
+    fn = BARE_OPS[case["op"]]
+    bare = {"bool": np.array([True, False, True]), "np.bool_": np.bool_(True), "float": np.array([1.0, 0.0, 1.0]), "int": np.array([1, 0, 1])}[case["dtype"]]
+    if col is not None:
+        col.case(("bo", case["op"], case["dtype"], case["unit"]), True, sample=case, cls="bare_operand:" + case["dtype"])
+    q = ureg.Quantity(np.array([2.0, 3.0, 5.0]), case["unit"])
+    s_, r_ = attempt(fn, np, q, bare)
+    if case["unit"] == "meter":
+        if s_ == "ok":
+            raise Violation(f"numpy_accepts_wrong_dimension:{case['op']}:bare_{case['dtype']}", f"np.{case['op']}(meter array, bare {case['dtype']} {bare!r}) returned {r_!r}")
+        if not isinstance(r_, pint.DimensionalityError):
+            raise Violation(f"numpy_wrong_exception:{case['op']}:bare_{case['dtype']}:{exc_class(r_)}", f"{r_!r}")
+        return
+    # percent: the bare operand counts as a dimensionless number (1 == 100 percent): same answer as its float twin
+    s2, r2 = attempt(fn, np, q, np.asarray(bare, dtype=float))
+    if s_ != s2 or (s_ == "ok" and not cmp_norm(normalise(env.R(), r_), normalise(env.R(), r2))):
+        raise Violation(f"numpy_result_depends_on_dtype_of_bare_operand:{case['op']}", f"np.{case['op']}(percent array, bare {case['dtype']}) -> {r_!r}; with the same numbers as floats -> {r2!r}")
+
+
 def run_errors(task, tier, seed, col):
+    for op in BARE_OPS:
+        for dt in ("bool", "np.bool_", "float", "int"):
+            for unit in ("meter", "percent"):
+                col.run_case(lambda c: case_bare_operand(c, col), {"op": op, "dtype": dt, "unit": unit})
     for i in range(len(RECIPES)):
         col.run_case(lambda c: case_error(c, col), {"recipe": RECIPES[i]["name"]})
     col.exhaustive = True
@@ -565,4 +603,4 @@ def run_task(task, tier, seed, col):
 
 
 def replay(sub, case):
-    return {"calls": case_call, "errors": case_error, "offset": case_offset, "methods": case_methods}[sub](case)
+    return {"calls": case_call, "errors": (case_bare_operand if "dtype" in case else case_error), "offset": case_offset, "methods": case_methods}[sub](case)
